@@ -202,6 +202,10 @@ class Expect:
             n = self.node(p)
             if n is None:
                 self.set(p, b'')
+            elif isinstance(n, dict) and p[0] != 'h':
+                # FatPath.touch() opens the path for appending: a directory is refused (IsADirectoryError), where
+                # pathlib.Path.touch() on the host accepts it; the property says nothing about touching directories
+                raise Fail('is a directory')
 
     def mkdir(self, parents, paths):
         for p in paths:
